@@ -12,7 +12,7 @@ RULE = ("C04's type generator with pre-filled targets (every field holds a rando
         "(conversion, range, validator, wrong kind, array size) injected at a random field position in half of the cases. The worker "
         "snapshots the target before the call ('shallow': maps and pointees by identity) and compares after a failure. Oracle: on "
         "success every non-struct field without a setting equals its previous value; on failure the struct is unchanged (shallow); "
-        "the stored values equal the model's. Non-trivial: the target is pre-filled and the config mentions a strict subset of the "
+        "the stored values equal the model's. Plus: pre-filled arrays / slices / maps / pointers of structs mentioned only in part (recursive frame oracle frameRec); the same struct type read under two tag namespaces (StructTag / ValidatorTag) one call after the other in one process. Non-trivial: the target is pre-filled and the config mentions a strict subset of the "
         "fields or fails. Distinct by (type signature, mentioned subset, fault kind and position, outcome).")
 TRUSTED_BASE = ["Lean 4 kernel", "Model/Unpack.lean (reifyStruct as copy -> per-field update -> assign back; differential check)",
                 "the worker's before/after snapshot", "correspondence harness"]
